@@ -49,7 +49,10 @@ def gen_robots(tape, r):
                 lines.append('%s: %s' % (key, p))
                 r.probes['robots_disallow'] += 1
         lines.append('')
-    return eol.join(lines) + eol
+    text = eol.join(lines) + eol
+    if tape.chance(1, 3, 'rb.no_final_newline'):
+        text = text.rstrip('\r\n')
+    return text
 
 
 def run_c20(tape, r, tier, sandbox):
@@ -110,7 +113,9 @@ def run_c20(tape, r, tier, sandbox):
                     server.send(conn, 503, 'Unavailable', [('Content-Type', 'text/plain')], b'try later')
                     ex['status'] = 503
                 elif mode == 'redirect':
-                    server.send(conn, 301, 'Moved', [('Location', '/robots2.txt'), ('Content-Type', 'text/plain')], b'moved')
+                    body = b'moved' if st['k'] == 1 else (b'<html><head><title>301 Moved</title></head><body>The document has moved '
+                                                          b'<a href="/robots2.txt">here</a>.' + b' padding' * 60 + b'</body></html>')
+                    server.send(conn, 301, 'Moved', [('Location', '/robots2.txt'), ('Content-Type', 'text/html')], body)
                     ex['status'] = 301
                 else:
                     server.send(conn, 200, 'OK', [('Content-Type', 'text/plain')], st['text'].encode('utf-8'))
